@@ -9,6 +9,10 @@ CHECKS = {
    technique="runtime monitoring: independent RTF reader as output oracle + invariant hook on Row._as_rtf over generated documents",
    text="Every generated document accepted at construction is encoded by the real library; the returned string is re-read by an independent RTF reader (structure, lexical validity, per-row cellx/cell agreement) and a hook on Row._as_rtf checks definitions==contents on every call. Held on the executions produced (thousands of distinct specs incl. the full header x strategy x footnote x source product); not a proof.",
    note="trusted: rtfmon/reader.py (self-tested against hand-written RTF, malformed inputs and the repository's 71 RTF fixtures), CPython, the spec generators' reach"),
+ "C19": dict(cat="exploration", ref="5/C19",
+   technique="runtime monitoring: exception class observed at the real constructors for generated invalid configurations",
+   text="Each validated field of every component class is driven with one invalid value at a random position of a scalar / flat / nested container among valid values (plus the structural cases); the monitor records the exception class raised by the real constructor. Each case has a valid twin that must be accepted, so the generator cannot hide behind its own invalid surroundings.",
+   note="only the invalidity classes named in the statement; shapes limited to those the annotations admit"),
  "C20": dict(cat="exploration", ref="5/C20",
    technique="runtime monitoring: relational assertions on observed return values of get_string_width",
    text="The real get_string_width is called on generated (string, font, size, unit, dpi) tuples and the algebraic relations of the statement are asserted on the observed values; font-number->file map cross-checked by measuring the bundled file directly with Pillow.",
